@@ -1187,7 +1187,7 @@ def registry_gen(rng, n_ops, gen_flags):
         elif r < 0.79:
             lines.append(f"r anon {rng.choice([1, 2, 3, 4])} {int(rng.random() < 0.6)}")
         elif r < 0.86:
-            lines.append(f"r tnotify {int(rng.random() < 0.5)}")
+            lines.append(f"r tnotify {int(rng.random() < 0.5)} {rng.choice([7, 8, 9])}")
         elif r < 0.90:
             lines.append("r driven")
         else:
@@ -1268,7 +1268,7 @@ def registry_exec(lines):
             impl.append("ok")
         elif op == "tnotify":
             del got[:]
-            outer.notify_listeners((("1.1.1.1", 1), pfx_bytes(7) + b"\x01payload"), from_tunnel=(t[2] == "1"))
+            outer.notify_listeners((("1.1.1.1", 1), pfx_bytes(int(t[3])) + b"\x01payload"), from_tunnel=(t[2] == "1"))
             impl.append("[" + ",".join(map(str, sorted(got))) + "]")
         elif op == "driven":
             del driven[:]
